@@ -155,9 +155,11 @@ impl MetadataSlab {
                 .map(|(k, v)| (k.clone(), v.clone()))
                 .collect()
         } else {
-            // Prefix is all 0xFF bytes, scan to end of shard
+            // No end key (the incremented last byte, e.g. 0x7F -> 0x80 or 0xBF -> 0xC0, is
+            // no valid UTF-8): walk on from the prefix while the keys still start with it
             shard
                 .range(prefix_owned..)
+                .take_while(|(k, _)| k.starts_with(prefix))
                 .map(|(k, v)| (k.clone(), v.clone()))
                 .collect()
         }
@@ -192,7 +194,10 @@ impl MetadataSlab {
         if let Some(end_key) = next_prefix(prefix) {
             shard.range(prefix_owned..end_key).count()
         } else {
-            shard.range(prefix_owned..).count()
+            shard
+                .range(prefix_owned..)
+                .take_while(|(k, _)| k.starts_with(prefix))
+                .count()
         }
     }
 
@@ -232,7 +237,11 @@ impl MetadataSlab {
             if let Some(end_key) = next_prefix(prefix) {
                 Box::new(shard.range(prefix_owned..end_key))
             } else {
-                Box::new(shard.range(prefix_owned..))
+                Box::new(
+                    shard
+                        .range(prefix_owned..)
+                        .take_while(|(k, _)| k.starts_with(prefix)),
+                )
             };
 
         iter.filter_map(|(k, v)| f(k, v)).collect()
